@@ -115,6 +115,8 @@ func (t *ATable) AddSeparator() Table {
 	t.rows = append(t.rows, sep)
 	sep.inTable = t
 	sep.rowNum = len(t.rows)
+	// errors on the separator (eg, adding a cell to it) are the table's errors
+	sep.ErrorContainer = t.ErrorContainer
 	return t
 }
 
